@@ -1,19 +1,689 @@
 package main
 
 import (
+	"encoding/json"
+	"flag"
 	"fmt"
+	"go/ast"
+	"go/token"
+	"go/types"
+	"os"
+	"path/filepath"
+	"sort"
+	"strings"
+	"sync"
+	"time"
+
 	"golang.org/x/tools/go/packages"
 	"golang.org/x/tools/go/ssa"
 	"golang.org/x/tools/go/ssa/ssautil"
 )
 
-func main() {
-	cfg := &packages.Config{Mode: packages.LoadAllSyntax, Dir: "/repo", BuildFlags: []string{"-tags=verif"}}
-	pkgs, err := packages.Load(cfg, "./datafile")
-	if err != nil {
-		panic(err)
+var (
+	flagRepo    = flag.String("repo", "/repo", "repository root")
+	flagVerif   = flag.String("verif", "/verif", "verif root")
+	flagProp    = flag.String("prop", "", "property id (C01..C20); empty = all functions under contract")
+	flagTier    = flag.String("tier", "quick", "quick | thorough")
+	flagFunc    = flag.String("func", "", "only verify functions whose key contains this substring")
+	flagKeep    = flag.Bool("keep", false, "keep SMT files")
+	flagVerbose = flag.Bool("v", false, "verbose")
+	flagDump    = flag.String("dump", "", "dump the SMT of obligations whose name contains this substring to stdout")
+	flagNoEvid  = flag.Bool("no-evidence", false, "do not write the evidence file")
+	flagBudget  = flag.Int("budget", 0, "solver budget in seconds (0 = tier default)")
+)
+
+var bindErrs []string
+var bindMu sync.Mutex
+
+func (g *G) reportBindErr(fn string, c *Clause, err error) {
+	bindMu.Lock()
+	defer bindMu.Unlock()
+	msg := fmt.Sprintf("%s: %s [%s]: %v", fn, c.Kind, c.Label, err)
+	for _, m := range bindErrs {
+		if m == msg {
+			return
+		}
 	}
-	prog, spkgs := ssautil.AllPackages(pkgs, ssa.GlobalDebug)
-	prog.Build()
-	fmt.Println(len(spkgs))
+	bindErrs = append(bindErrs, msg)
 }
+
+var astFiles = map[string]*ast.File{}
+var pkgSyntax = map[*types.Package][]*ast.File{}
+
+func (g *G) fileOf(name string) *ast.File { return astFiles[name] }
+
+func fnSyntaxFiles(g *G, fn *ssa.Function) []*ast.File {
+	if fn.Pkg == nil {
+		return nil
+	}
+	return pkgSyntax[fn.Pkg.Pkg]
+}
+
+var srcMu sync.Mutex
+var srcText = map[string]string{}
+
+func (g *G) source(name string) string {
+	srcMu.Lock()
+	defer srcMu.Unlock()
+	if s, ok := srcText[name]; ok {
+		return s
+	}
+	b, _ := os.ReadFile(name)
+	srcText[name] = string(b)
+	return string(b)
+}
+
+func loadProgram(repo string) (*G, error) {
+	cfg := &packages.Config{Mode: packages.LoadAllSyntax, Dir: repo, BuildFlags: []string{"-tags=verif"},
+		Env: append(os.Environ(), "GOFLAGS=-mod=mod", "GOPROXY=off", "GOSUMDB=off", "GOTOOLCHAIN=local")}
+	pkgs, err := packages.Load(cfg, ".", "./datafile", "./fio", "./index", "./utils", "./datatype")
+	if err != nil {
+		return nil, err
+	}
+	nerr := 0
+	packages.Visit(pkgs, nil, func(p *packages.Package) {
+		for _, e := range p.Errors {
+			if nerr < 10 {
+				fmt.Fprintln(os.Stderr, "load error:", e)
+			}
+			nerr++
+		}
+	})
+	if nerr > 0 {
+		return nil, fmt.Errorf("%d package load errors (the working tree does not compile with -tags verif)", nerr)
+	}
+	prog, _ := ssautil.AllPackages(pkgs, ssa.GlobalDebug|ssa.InstantiateGenerics)
+	prog.Build()
+	g := &G{prog: prog, fset: prog.Fset, specs: NewSpecs(), tags: map[string]int{}, strs: map[string]int{}, fnByKey: map[string]*ssa.Function{},
+		repoPkgs: map[string]*ssa.Package{}, errIDs: map[string]int{}}
+	g.modPath = "github.com/XiXi-2024/xixi-kv"
+	packages.Visit(pkgs, nil, func(p *packages.Package) {
+		if p.Types != nil {
+			pkgSyntax[p.Types] = p.Syntax
+		}
+		for _, f := range p.Syntax {
+			astFiles[prog.Fset.Position(f.Pos()).Filename] = f
+		}
+	})
+	for _, p := range prog.AllPackages() {
+		if strings.HasPrefix(p.Pkg.Path(), g.modPath) {
+			g.repoPkgs[p.Pkg.Name()] = p
+		}
+		// named types of all packages are candidates for typeByKey; only repo types are used for dispatch
+		for _, m := range p.Members {
+			if t, ok := m.(*ssa.Type); ok {
+				if strings.HasPrefix(p.Pkg.Path(), g.modPath) {
+					g.allTypes = append(g.allTypes, t.Type())
+				} else {
+					g.extTypes = append(g.extTypes, t.Type())
+				}
+			}
+		}
+	}
+	sort.Slice(g.allTypes, func(i, j int) bool { return g.allTypes[i].String() < g.allTypes[j].String() })
+	sort.Slice(g.extTypes, func(i, j int) bool { return g.extTypes[i].String() < g.extTypes[j].String() })
+	g.allTypes = append(g.allTypes, g.extTypes...)
+	for fn := range ssautil.AllFunctions(prog) {
+		k := fnKey(g, fn)
+		if old, ok := g.fnByKey[k]; ok {
+			// prefer functions with bodies, then deterministic choice
+			if old.Blocks != nil && fn.Blocks == nil {
+				continue
+			}
+			if old.Blocks != nil && fn.Blocks != nil && old.String() <= fn.String() {
+				continue
+			}
+		}
+		g.fnByKey[k] = fn
+	}
+	return g, nil
+}
+
+func loadSpecs(g *G, repo, verif string) error {
+	var files []string
+	for _, pat := range []string{filepath.Join(repo, "zz_contracts*_verif.go"), filepath.Join(repo, "*", "zz_contracts*_verif.go"), filepath.Join(verif, "trusted", "*.spec")} {
+		m, _ := filepath.Glob(pat)
+		sort.Strings(m)
+		files = append(files, m...)
+	}
+	for _, f := range files {
+		if err := g.specs.LoadSpecFile(f); err != nil {
+			return err
+		}
+	}
+	return nil
+}
+
+type KnownFinding struct {
+	Kind       string // finding | fixed
+	Property   string
+	Obligation string
+	Text       string
+}
+
+func loadKnown(verif string) []KnownFinding {
+	var out []KnownFinding
+	b, err := os.ReadFile(filepath.Join(verif, "known_findings.txt"))
+	if err != nil {
+		return nil
+	}
+	for _, l := range strings.Split(string(b), "\n") {
+		l = strings.TrimSpace(l)
+		if l == "" || strings.HasPrefix(l, "#") {
+			continue
+		}
+		var k KnownFinding
+		switch {
+		case strings.HasPrefix(l, "finding:"):
+			k.Kind = "finding"
+			l = strings.TrimSpace(l[8:])
+		case strings.HasPrefix(l, "fixed:"):
+			k.Kind = "fixed"
+			l = strings.TrimSpace(l[6:])
+		default:
+			continue
+		}
+		for _, f := range strings.SplitN(l, " ", 3) {
+			if strings.HasPrefix(f, "property=") {
+				k.Property = f[9:]
+			}
+		}
+		if i := strings.Index(l, "obligation="); i >= 0 {
+			rest := l[i+11:]
+			// obligation names may contain spaces inside [...]; they end at "] " followed by text or "#n "
+			end := strings.Index(rest, "] ")
+			if end < 0 {
+				k.Obligation = strings.TrimSpace(rest)
+			} else {
+				name := rest[:end+1]
+				tail := rest[end+1:]
+				if strings.HasPrefix(tail, "#") {
+					sp := strings.Index(tail, " ")
+					if sp < 0 {
+						sp = len(tail)
+					}
+					name += tail[:sp]
+					tail = tail[sp:]
+				}
+				k.Obligation = name
+				k.Text = strings.TrimSpace(tail)
+			}
+		} else {
+			k.Text = l
+		}
+		out = append(out, k)
+	}
+	return out
+}
+
+func hasProp(ps []string, p string) bool {
+	for _, x := range ps {
+		if x == p {
+			return true
+		}
+	}
+	return false
+}
+
+func buildSMT(e *Enc, o *Obl) string {
+	var sb strings.Builder
+	sb.WriteString(preamble)
+	for _, d := range e.decls[:o.NDecl] {
+		sb.WriteString(d)
+		sb.WriteByte('\n')
+	}
+	if o.Expect == "sat" {
+		sb.WriteString("(assert " + o.Raw + ")\n")
+	} else {
+		sb.WriteString("(assert (not " + o.Goal + "))\n")
+	}
+	sb.WriteString("(check-sat)\n(get-model)\n")
+	return sb.String()
+}
+
+type Evidence struct {
+	PropertyID  string                 `json:"property_id"`
+	Tier        string                 `json:"tier"`
+	Seed        int                    `json:"seed"`
+	Level       string                 `json:"level"`
+	Coverage    map[string]interface{} `json:"coverage"`
+	Assumptions []string               `json:"assumptions"`
+	WallS       float64                `json:"wall_s"`
+	Violations  int                    `json:"violations"`
+}
+
+func main() {
+	flag.Parse()
+	t0 := time.Now()
+	os.Exit(run(t0))
+}
+
+func run(t0 time.Time) int {
+	prop := *flagProp
+	g, err := loadProgram(*flagRepo)
+	if err != nil {
+		fmt.Println("UNDECIDED property=" + prop + " reason=load: " + err.Error())
+		return 2
+	}
+	if err := loadSpecs(g, *flagRepo, *flagVerif); err != nil {
+		fmt.Println("UNDECIDED property=" + prop + " reason=spec: " + err.Error())
+		return 2
+	}
+	tLoad := time.Since(t0).Seconds()
+	// select functions
+	var keys []string
+	for k, s := range g.specs.Funcs {
+		if s.Trusted || s.IsIface {
+			continue
+		}
+		if prop != "" && !hasProp(s.Props, prop) {
+			// a function may still carry clause-level tags for this property
+			tagged := false
+			for _, c := range append(append([]*Clause{}, s.Ensures...), s.Requires...) {
+				if hasProp(c.Props, prop) {
+					tagged = true
+				}
+			}
+			if !tagged {
+				continue
+			}
+		}
+		if *flagFunc != "" && !strings.Contains(k, *flagFunc) {
+			continue
+		}
+		keys = append(keys, k)
+	}
+	sort.Strings(keys)
+	var undecided []string
+	var results []*FuncResult
+	var rmu sync.Mutex
+	var wg sync.WaitGroup
+	sem := make(chan struct{}, 8)
+	for _, k := range keys {
+		fn := g.fnByKey[k]
+		spec := g.specs.Funcs[k]
+		if fn == nil {
+			if isRepoKey(k) {
+				undecided = append(undecided, "unbound:"+k)
+			}
+			continue
+		}
+		if fn.Blocks == nil || !(&Enc{g: g}).isRepoFn(fn) {
+			continue // external: contract is trusted
+		}
+		wg.Add(1)
+		go func(fn *ssa.Function, spec *FuncSpec) {
+			defer wg.Done()
+			sem <- struct{}{}
+			defer func() { <-sem }()
+			defer func() {
+				if r := recover(); r != nil {
+					rmu.Lock()
+					undecided = append(undecided, fmt.Sprintf("engine-panic:%s:%v", spec.Key, r))
+					rmu.Unlock()
+				}
+			}()
+			r := verifyFunction(g, fn, spec)
+			rmu.Lock()
+			results = append(results, r)
+			rmu.Unlock()
+		}(fn, spec)
+	}
+	wg.Wait()
+	sort.Slice(results, func(i, j int) bool { return results[i].Key < results[j].Key })
+	// lemmas
+	if lr := verifyLemmas(g, prop); lr != nil {
+		results = append(results, lr)
+	}
+	tGen := time.Since(t0).Seconds() - tLoad
+
+	for _, m := range bindErrs {
+		undecided = append(undecided, "unbound:"+m)
+	}
+
+	// collect obligations of this property
+	var jobs []job
+	for _, r := range results {
+		spec := g.specs.Funcs[r.Key]
+		for _, o := range r.Obls {
+			if prop != "" {
+				if o.Props != nil {
+					if !hasProp(o.Props, prop) {
+						continue
+					}
+				} else if spec != nil && !hasProp(spec.Props, prop) {
+					continue
+				}
+			}
+			jobs = append(jobs, job{r, o})
+		}
+	}
+	work := filepath.Join(*flagVerif, ".work", fmt.Sprintf("%d", os.Getpid()))
+	os.MkdirAll(work, 0755)
+	if !*flagKeep {
+		defer os.RemoveAll(work)
+	}
+	budget := 10
+	if *flagTier == "thorough" {
+		budget = 60
+	}
+	if *flagBudget > 0 {
+		budget = *flagBudget
+	}
+	jsem := make(chan struct{}, 12)
+	var jwg sync.WaitGroup
+	for i := range jobs {
+		j := jobs[i]
+		smt := buildSMT(j.r.Enc, j.o)
+		if *flagDump != "" && strings.Contains(j.o.Name, *flagDump) {
+			fmt.Println("; ==== " + j.o.Name)
+			fmt.Println(smt)
+		}
+		file, err := writeSMT(work, fmt.Sprintf("%04d_%s", i, j.o.Name), smt)
+		if err != nil {
+			undecided = append(undecided, "io:"+err.Error())
+			continue
+		}
+		j.o.File = file
+		jwg.Add(1)
+		go func(o *Obl, file string, lambda bool) {
+			defer jwg.Done()
+			jsem <- struct{}{}
+			defer func() { <-jsem }()
+			if *flagTier == "thorough" && o.Expect == "" {
+				best, all, disagree := solveAll(file, budget, lambda)
+				o.Res, o.All = best, all
+				if disagree {
+					o.Res.Status = "disagree"
+				}
+			} else {
+				o.Res, o.All = solveFile(file, budget, lambda)
+			}
+			if o.Res.Status == "sat" {
+				o.Model = parseModel(o.Res.Model)
+			}
+		}(j.o, file, j.r.Enc.lambda)
+	}
+	jwg.Wait()
+	tSolve := time.Since(t0).Seconds() - tLoad - tGen
+
+	// classify
+	known := loadKnown(*flagVerif)
+	baseline := loadBaseline(*flagVerif)
+	nObl, nDis := 0, 0
+	var violations, knownHits, undecidedObl []*Obl
+	bySolver := map[string]int{}
+	solverSecs := map[string]float64{}
+	vacChecks, vacOK := 0, 0
+	for _, j := range jobs {
+		o := j.o
+		if o.Expect == "sat" {
+			vacChecks++
+			switch o.Res.Status {
+			case "unsat":
+				undecided = append(undecided, "vacuous:"+o.Name)
+			default:
+				vacOK++
+			}
+			continue
+		}
+		nObl++
+		switch o.Res.Status {
+		case "unsat":
+			nDis++
+			bySolver[o.Res.Solver]++
+			solverSecs[o.Res.Solver] += o.Res.Secs
+		case "sat":
+			if kf := matchKnown(known, prop, o.Name); kf != nil {
+				knownHits = append(knownHits, o)
+			} else {
+				violations = append(violations, o)
+			}
+		case "disagree":
+			undecided = append(undecided, "solver-disagreement:"+o.Name)
+		default:
+			// unknown / timeout: undecided unless the baseline says it used to be discharged
+			if kf := matchKnown(known, prop, o.Name); kf != nil {
+				knownHits = append(knownHits, o)
+			} else if baseline[o.Name] == "unsat" {
+				violations = append(violations, o)
+			} else {
+				undecidedObl = append(undecidedObl, o)
+			}
+		}
+	}
+	sort.Slice(violations, func(i, j int) bool { return violations[i].Name < violations[j].Name })
+
+	// output
+	exit := 0
+	replayDir := filepath.Join(*flagVerif, "replays")
+	for _, o := range knownHits {
+		kf := matchKnown(known, prop, o.Name)
+		fmt.Printf("KNOWN-FINDING: property=%s %s — %s\n", prop, o.Name, kf.Text)
+	}
+	for _, o := range violations {
+		os.MkdirAll(replayDir, 0755)
+		path, replayed := writeReplay(g, replayDir, prop, o)
+		suffix := ""
+		if !replayed {
+			suffix = " no-failing-input-found"
+		}
+		fmt.Printf("VIOLATION property=%s replay=%s obligation=%s (%s:%d) status=%s%s\n", prop, path, o.Name, shortFile(o.Pos.Filename), o.Pos.Line, o.Res.Status, suffix)
+		exit = 1
+	}
+	for _, o := range undecidedObl {
+		undecided = append(undecided, "unproved:"+o.Name+" ("+o.Res.Status+")")
+	}
+	minExpected := loadMinimum(*flagVerif, prop)
+	if prop != "" && nObl < minExpected {
+		undecided = append(undecided, fmt.Sprintf("obligation-count:%d<%d", nObl, minExpected))
+	}
+	sort.Strings(undecided)
+	for _, u := range undecided {
+		fmt.Printf("UNDECIDED property=%s reason=%s\n", prop, u)
+	}
+	if exit == 0 && len(undecided) > 0 {
+		exit = 2
+	}
+	wall := time.Since(t0).Seconds()
+	fmt.Printf("govc: property=%s tier=%s functions=%d obligations=%d discharged=%d known=%d violations=%d undecided=%d load=%.1fs gen=%.1fs solve=%.1fs\n",
+		prop, *flagTier, len(results), nObl, nDis, len(knownHits), len(violations), len(undecided), tLoad, tGen, tSolve)
+	if *flagVerbose {
+		for _, j := range jobs {
+			fmt.Printf("  %-8s %-7s %5.2fs %s\n", j.o.Res.Status, j.o.Res.Solver, j.o.Res.Secs, j.o.Name)
+		}
+	}
+	if prop != "" && !*flagNoEvid {
+		writeEvidence(g, prop, results, jobsObls(jobs), nObl, nDis, knownHits, violations, undecided, bySolver, solverSecs, vacChecks, vacOK, wall)
+	}
+	return exit
+}
+
+type job struct {
+	r *FuncResult
+	o *Obl
+}
+
+func jobsObls(js []job) []*Obl {
+	var out []*Obl
+	for _, j := range js {
+		out = append(out, j.o)
+	}
+	return out
+}
+
+func isRepoKey(k string) bool {
+	for _, p := range []string{"xixi_kv.", "datafile.", "fio.", "index.", "utils.", "datatype."} {
+		if strings.Contains(k, p) {
+			return true
+		}
+	}
+	return false
+}
+
+func matchKnown(known []KnownFinding, prop, name string) *KnownFinding {
+	for i := range known {
+		k := &known[i]
+		if k.Kind == "finding" && k.Obligation == name && (k.Property == prop || prop == "") {
+			return k
+		}
+	}
+	return nil
+}
+
+func loadBaseline(verif string) map[string]string {
+	m := map[string]string{}
+	b, err := os.ReadFile(filepath.Join(verif, "baseline_obligations.json"))
+	if err != nil {
+		return m
+	}
+	var raw map[string]map[string]string
+	if json.Unmarshal(b, &raw) == nil {
+		for _, pm := range raw {
+			for k, v := range pm {
+				m[k] = v
+			}
+		}
+	}
+	return m
+}
+
+func loadMinimum(verif, prop string) int {
+	b, err := os.ReadFile(filepath.Join(verif, "baseline_obligations.json"))
+	if err != nil {
+		return 1
+	}
+	var raw map[string]map[string]string
+	if json.Unmarshal(b, &raw) != nil {
+		return 1
+	}
+	n := len(raw[prop])
+	if n == 0 {
+		return 1
+	}
+	// tolerate refactorings that remove a few automatic safety obligations
+	return n * 7 / 10
+}
+
+func verifyLemmas(g *G, prop string) *FuncResult {
+	var ls []*Lemma
+	for _, l := range g.specs.Lemmas {
+		if prop == "" || hasProp(l.Props, prop) {
+			ls = append(ls, l)
+		}
+	}
+	if len(ls) == 0 {
+		return nil
+	}
+	e := newEnc(g, nil)
+	e.topKey = "lemma"
+	fr := &Frame{e: e, env: map[string]*Val{}, specVars: map[string]*Val{}, key: "lemma"}
+	st := &State{pc: "true", heap: map[string]string{}}
+	for _, l := range ls {
+		t, err := fr.evalClause(&l.Clause, st, st, nil, nil)
+		if err != nil {
+			g.reportBindErr("lemma", &l.Clause, err)
+			continue
+		}
+		// lemmas are proved independently: do not assume earlier ones
+		o := &Obl{Name: "lemma/" + l.Label, Kind: "lemma", Func: "lemma", Label: l.Label, Props: l.Props, PC: "true", Raw: t, Goal: t, NDecl: len(e.decls)}
+		e.obls = append(e.obls, o)
+	}
+	return &FuncResult{Key: "lemma", Enc: e, Obls: e.obls}
+}
+
+func writeEvidence(g *G, prop string, results []*FuncResult, obls []*Obl, nObl, nDis int, knownHits, violations []*Obl, undecided []string,
+	bySolver map[string]int, solverSecs map[string]float64, vacChecks, vacOK int, wall float64) {
+	var fns []string
+	trusted := map[string]bool{}
+	abstr := map[string]bool{}
+	inl := map[string]bool{}
+	for _, r := range results {
+		fns = append(fns, r.Key)
+		for k := range r.Enc.trusted {
+			trusted[k] = true
+		}
+		for k := range r.Enc.abstr {
+			abstr[k] = true
+		}
+		for k := range r.Enc.inlined {
+			inl[k] = true
+		}
+	}
+	keys := func(m map[string]bool) []string {
+		var o []string
+		for k := range m {
+			o = append(o, k)
+		}
+		sort.Strings(o)
+		return o
+	}
+	var samples []interface{}
+	kinds := map[string]int{}
+	for _, o := range obls {
+		kinds[o.Kind]++
+	}
+	seen := map[string]bool{}
+	for _, o := range obls {
+		if o.Expect != "" || seen[o.Kind] || len(samples) >= 8 {
+			continue
+		}
+		seen[o.Kind] = true
+		goal := o.Raw
+		if len(goal) > 400 {
+			goal = goal[:400] + "…"
+		}
+		samples = append(samples, map[string]interface{}{"obligation": o.Name, "kind": o.Kind, "at": fmt.Sprintf("%s:%d", shortFile(o.Pos.Filename), o.Pos.Line),
+			"status": o.Res.Status, "solver": o.Res.Solver, "secs": o.Res.Secs, "smt_goal": goal})
+	}
+	var kh, vs []string
+	for _, o := range knownHits {
+		kh = append(kh, o.Name)
+	}
+	for _, o := range violations {
+		vs = append(vs, o.Name)
+	}
+	level := "proof"
+	if len(knownHits) > 0 || nDis != nObl {
+		level = "other"
+	}
+	cov := map[string]interface{}{
+		"obligations": nObl, "discharged": nDis,
+		"checker_cmd":              fmt.Sprintf("/verif/bin/govc -prop %s -tier %s (SMT portfolio: z3-new 5.1.0, z3 4.8.12, cvc5 1.0.3)", prop, *flagTier),
+		"trusted_base":             keys(trusted),
+		"functions_under_contract": fns,
+		"inlined_helpers":          keys(inl),
+		"by_solver":                bySolver,
+		"solver_seconds":           solverSecs,
+		"obligation_kinds":         kinds,
+		"abstractions":             keys(abstr),
+		"vacuity":                  map[string]int{"checks": vacChecks, "passed": vacOK},
+		"samples":                  samples,
+		"known_findings":           kh,
+		"violating_obligations":    vs,
+		"undecided":                undecided,
+		"contract_scan":            g.specs.Scan,
+		"explanation": fmt.Sprintf("%d proof obligations generated from the go/ssa form of /repo's working tree for the functions under contract for %s; %d discharged (unsat) by the SMT portfolio; %d match a listed known finding; %d violate.",
+			nObl, prop, nDis, len(knownHits), len(violations)),
+	}
+	assumptions := []string{
+		"int is 64-bit (GOARCH=amd64); slice capacities are at most 2^48",
+		"go/ssa (x/tools v0.29.0) and the SMT solvers are correct",
+		"goroutines, channels, select are dropped constructs; concurrency is covered only by lock-discipline obligations",
+		"floating point values are uninterpreted",
+		"memory exhaustion and stack overflow are not modelled",
+		"termination is proved only where a decreases clause is given",
+	}
+	assumptions = append(assumptions, propAssumptions[prop]...)
+	ev := Evidence{PropertyID: prop, Tier: *flagTier, Seed: 0, Level: level, Coverage: cov, Assumptions: assumptions, WallS: wall, Violations: len(violations)}
+	if s := os.Getenv("VERIF_SEED"); s != "" {
+		fmt.Sscanf(s, "%d", &ev.Seed)
+	}
+	b, _ := json.MarshalIndent(ev, "", " ")
+	os.MkdirAll(filepath.Join(*flagVerif, "evidence"), 0755)
+	os.WriteFile(filepath.Join(*flagVerif, "evidence", prop+".json"), b, 0644)
+}
+
+var propAssumptions = map[string][]string{}
+
+var _ = token.NoPos
